@@ -278,7 +278,10 @@ Proof.
   intros m a rw evs H.
   assert (is_dedup a = false) as Hd.
   { destruct H as [-> | [(t & ->) | [(t & n & c & ->) | [(t & n & c & ->) | (t & n & c & ->)]]]]; reflexivity. }
+  assert (recoverable a = true) as Hr by (destruct a; try reflexivity; simpl in Hd; discriminate).
   split.
-  - apply recover_observable. destruct a; try reflexivity; discriminate.
-  - intros. apply recover_observable. simpl. rewrite Hd. reflexivity.
+  - exact (recover_observable m a rw evs Hr).
+  - intros hm auto maxdup maxatt.
+    assert (recoverable (ADedup a hm auto maxdup maxatt) = true) as Hr2 by (simpl; rewrite Hd; reflexivity).
+    exact (recover_observable m _ rw evs Hr2).
 Qed.
